@@ -51,7 +51,7 @@ struct PerType {
         explore<V, frac>(d, &K);
     }
     static void unary(const DomainS<S>& lat, const std::vector<S>& K, std::true_type) {
-        if (opt().thorough) unary_ops(erase<S>(DomFull1<S>()), K);
+        if (exh32()) unary_ops(erase<S>(DomFull1<S>()), K);
         else unary_ops(lat, K);
     }
     static void unary(const DomainS<S>& lat, const std::vector<S>& K, std::false_type) { unary_ops(lat, K); }
